@@ -1342,7 +1342,7 @@ class BinaryOperator(SymbolicExpression, ABC):
             entered = True
             self._is_false_ = is_false
             cache_match_count.values[self._node_.name] += 1
-            if is_false and self._is_duplicate_output_(output):
+            if self._is_duplicate_output_(output):
                 continue
             yield output
         if not entered:
